@@ -758,6 +758,9 @@ func (cg *ConsumerGroup) run() {
 		// waiting to receive on the unbuffered error channel.
 		select {
 		case <-cg.done:
+			// after a RebalanceInProgress the member ID was kept: leave the
+			// group before exiting (no-op when the member ID is empty).
+			_ = cg.leaveGroup(memberID)
 			return
 		case cg.errs <- err:
 		}
